@@ -12,4 +12,13 @@ for fn in sorted(os.listdir(os.path.join(core.VERIF, "harness", "props"))):
             except Exception as e:
                 failed += 1
                 print("gen %s.%s FAILED: %s" % (fn[:-3], g.__module__, e))
+# the Generated files of the tree the framework was set up on are the baseline a check falls back to when an extractor
+# does not recognise changed source (core.restore_baseline); a committed copy exists, refresh it when every extractor succeeded
+if not failed:
+    import shutil
+    os.makedirs(core.BASELINE_DIR, exist_ok=True)
+    for fn in sorted(os.listdir(core.GEN_DIR)):
+        if fn.endswith(".lean"):
+            shutil.copyfile(os.path.join(core.GEN_DIR, fn), os.path.join(core.BASELINE_DIR, fn))
+    print("baseline refreshed (%s)" % core.BASELINE_DIR)
 sys.exit(0)   # an extraction failure is reported by the property's own check, not by setup
